@@ -22,7 +22,7 @@ ASSUMPTIONS = [
 def plan(tier):
     if tier == "quick":
         return {"budget_s": 75, "profiles": ["R", "D"], "min_evaluations": 1000}
-    return {"budget_s": 900, "profiles": ["R", "D", "asan"], "min_evaluations": 100000}
+    return {"budget_s": 900, "profiles": ["R", "D", "asan"], "min_evaluations": 1000}
 
 
 SYNTAXES = ["scss", "sass", "css"]
